@@ -170,6 +170,25 @@ class Emulation:
             if b != u:
                 return {"argv": [invoked] + argv, "expected": f"as with {uopts} appended to the command line: {b}", "observed": u,
                         "klass": "emulation:user-options-extend-the-built-in-compiler", "config": toml_dump(comp)}
+        if with_mode and rng.random() < 0.4:
+            # the user rule re-uses a flag the built-in definition already has: the flag must keep working (the user's
+            # mode applies; no exception for any command of that compiler)
+            comp2 = {real: {"parser": [{"flags": ["-fopenmp"], "action": "append_const", "dest": "modes", "const": "umode"}],
+                            "modes": [{"name": "umode", "defines": ["UMODE"]}]}}
+
+            def go2():
+                out = []
+                for argv in (["-DUSER", "-fopenmp", "x.c"], ["-DUSER", "-c", "x.c"]):
+                    try:
+                        cfgs = config.ArgumentParser("/opt/bin/" + invoked).parse_args(list(argv))
+                        out.append(sorted(x for c in cfgs if c.pass_name == "default" for x in c.defines))
+                    except Exception as e:      # noqa: BLE001
+                        out.append(f"raised {type(e).__name__}: {e}")
+                return out
+            r = self.in_dir(comp2, go2)
+            if isinstance(r[0], str) or isinstance(r[1], str) or "UMODE" not in r[0] or "UMODE" in r[1]:
+                return {"argv": [invoked, "-fopenmp"], "expected": "the user's rule for -fopenmp applies (UMODE defined with the flag, not without); no exception",
+                        "observed": r, "klass": "emulation:user-rule-for-an-existing-flag", "config": toml_dump(comp2)}
         if with_mode:
             usermode = self.in_dir(comp, run(lambda argv: ["-fumode"]))
             for argv, u, um in zip(cmds, user, usermode):
@@ -243,8 +262,13 @@ class Emulation:
         for m in modes:
             parser.append({"flags": ["-f" + m["name"]], "action": "append_const", "dest": "modes", "const": m["name"]})
         split_flag = rng.random() < 0.7
+        split_default = []
         if split_flag:
-            parser.append({"flags": ["-fpasses"], "action": "store_split", "sep": ",", "format": "p-$value", "dest": "passes"})
+            rule = {"flags": ["-fpasses", "--passes"], "action": "store_split", "sep": ",", "format": "p-$value", "dest": "passes"}
+            if rng.random() < 0.5:
+                rule["default"] = [f"p-{pnames[-1]}"]          # applies only when the flag (in either spelling) is absent
+            parser.append(rule)
+            split_default = rule.get("default", [])
         match_flag = rng.random() < 0.7
         override = rng.random() < 0.5
         default = [f"p-{pnames[0]}"] if rng.random() < 0.5 else []
@@ -270,7 +294,7 @@ class Emulation:
             split_sel = None
             if split_flag and rng.random() < 0.5:
                 vals = rng.sample(pnames, rng.randint(1, len(pnames)))
-                argv.append("-fpasses=" + ",".join(vals))
+                argv.append(rng.choice(["-fpasses=", "--passes="]) + ",".join(vals))
                 split_sel = {"p-" + v for v in vals}
             match_uses = []
             if match_flag:
@@ -295,6 +319,8 @@ class Emulation:
         mode_of = {m["name"]: m for m in modes}
         for (argv, want_modes, split_sel, match_uses), g in zip(cmdlines, got):
             sel = set(split_sel or ())
+            if split_flag and split_sel is None:
+                sel |= set(split_default)
             if match_flag:
                 vals = [f"p-{v}" for v in match_uses if v in "abc"]
                 if override:
@@ -333,3 +359,17 @@ TARGETS = {"codebasin.config:ArgumentParser.parse_args": Emulation(),
            # "a line is attributed to a platform if any pass of any of its commands uses it": several commands per platform,
            # forced includes, against the reference attribution
            "codebasin.finder:find": SysTarget("commands", ("multi", "forced"), quick_n=120, thorough_n=2000)}
+
+
+# ---- recorded finding: the first definition of a macro wins (gcc: the last) -----------------------------------------------
+from native import recorded as _R      # noqa: E402
+
+
+def _x_first_definition_wins():
+    with _R.tree({"a.c": "#if LEVEL == 2\nint two;\n#else\nint other;\n#endif\n"}) as root:
+        used = _R.used_lines(root, [{"file": os.path.join(root, "a.c"), "defines": ["LEVEL=1", "LEVEL=2"], "include_paths": [], "include_files": []}])
+    return None if 2 in used.get("a.c", []) else ("line 2 used: `gcc -E -DLEVEL=1 -DLEVEL=2` (e.g. an implicit option appended to the command) prints `int two;`", used)
+
+
+TARGETS["codebasin.platform:Platform.define#recorded-findings"] = _R.Exhibits([
+    ("emulation:first-definition-of-a-macro-wins", "gcc -DLEVEL=1 -DLEVEL=2 -c a.c", _x_first_definition_wins)])
